@@ -101,7 +101,11 @@ static void sync_all() {
 }
 #ifdef VF_MAX_ALLOC
 // the same allocation bound as the CBMC runtime: larger requests fail with std::bad_alloc
-void* operator new(std::size_t n) { if (n > VF_MAX_ALLOC) throw std::bad_alloc(); void* p = malloc(n ? n : 1); if (!p) throw std::bad_alloc(); return p; }
+// (natively the bound is never below 64 KiB: the real iostreams allocate their own buffers; and it only applies
+// while the harness entry runs)
+static bool g_armed;
+#define VF_NATIVE_MAX_ALLOC ((VF_MAX_ALLOC) < 65536 ? 65536 : (VF_MAX_ALLOC))
+void* operator new(std::size_t n) { if (g_armed && n > VF_NATIVE_MAX_ALLOC) throw std::bad_alloc(); void* p = malloc(n ? n : 1); if (!p) throw std::bad_alloc(); return p; }
 void* operator new[](std::size_t n) { return operator new(n); }
 void operator delete(void* p) noexcept { free(p); }
 void operator delete[](void* p) noexcept { free(p); }
@@ -109,4 +113,7 @@ void operator delete(void* p, std::size_t) noexcept { free(p); }
 void operator delete[](void* p, std::size_t) noexcept { free(p); }
 #endif
 extern "C" void VF_ENTRY(void);
-int main() { load(); VF_ENTRY(); finish("VF-RETURN", 0); }
+#ifndef VF_MAX_ALLOC
+static bool g_armed;
+#endif
+int main() { load(); g_armed = true; VF_ENTRY(); g_armed = false; finish("VF-RETURN", 0); }
